@@ -124,7 +124,9 @@ func errClass(err error) string {
 		case strings.Contains(msg, "not instantiated"), strings.Contains(msg, "must be compiled before instantiation"),
 			strings.Contains(msg, "source module must be compiled"):
 			return "refused"
-		case strings.Contains(msg, "closed"), strings.Contains(msg, "already been instantiated"):
+		case strings.Contains(msg, "already been instantiated"):
+			return "refused:name"
+		case strings.Contains(msg, "closed"):
 			return "refused"
 		}
 		return "other:" + msg
@@ -304,6 +306,12 @@ func child(engine string) {
 						old.Close(ctx)
 					}
 					twin[i] = inst(tw, a[0])
+				} else if obs[i] == "e:refused:name" && tw.insts[a[0]] != nil {
+					// refused only when registering the name: the instance was built (element segments were applied
+					// to shared tables) and then closed; the twin, which holds the same name, goes through the same
+					keep := tw.insts[a[0]]
+					twin[i] = inst(tw, a[0])
+					tw.insts[a[0]] = keep
 				}
 			case "call":
 				m := &h.Mods[a[0]]
